@@ -40,6 +40,10 @@ SPECS = {
     # registration changes racing with a query and a subscription
     "reg_dereg_req": dict(pre=[("regp", CAM), ("regc", CAM), ("add", CAM, "camA", 5)], adv=0,
                           actors=[[("deregc", CAM), ("regc", CAM)], [("req", CAM, (CAM,))], [("sub", CAM, (CAM,), "s1")]]),
+    # two attendance passes overlap (periodic thread + reactive attendance): a subscription with a notification interval
+    # must be notified once per interval
+    "attend_attend": dict(pre=[("regp", CAM), ("regc", CAM), ("subn", CAM, (CAM,), "s2", 1000), ("add", CAM, "camA", 9), ("attend",)], adv=2,
+                          actors=[[("attend",)], [("attend",)], [("req", CAM, (CAM,))]]),
     # update || query || maintenance
     "upd_req_trash": dict(pre=[("regp", CAM), ("regc", CAM), ("add", CAM, "camA", 5)], adv=0,
                           actors=[[("upd", CAM, 0, "camB")], [("req", CAM, (CAM,))], [("maint",)]]),
@@ -103,6 +107,12 @@ class LdmHarness:
             return r if L.is_exc(r) else None
         if k == "sub":
             r = w.subscribe(op[1], op[2], op[3])
+            if not L.is_exc(r):
+                self.sub_ids[op[3]] = r[1]
+                return r[0]
+            return r
+        if k == "subn":
+            r = w.subscribe(op[1], op[2], op[3], notify=L.C.TimestampIts(op[4]))
             if not L.is_exc(r):
                 self.sub_ids[op[3]] = r[1]
                 return r[0]
